@@ -235,6 +235,7 @@ def main():
     ap.add_argument("--jobs", type=int, default=min(16, os.cpu_count() or 4))
     ap.add_argument("--orig", action="store_true", help="also check that the pinned original tree reproduces the documented defects")
     ap.add_argument("--json")
+    ap.add_argument("--neutral", action="store_true", help="also run the six whole-package behaviour-preserving rewrites (neutral_sweep)")
     a = ap.parse_args()
     from selftest.variants import V
     vs = [v for v in V if a.prop is None or v["prop"] == a.prop]
@@ -291,7 +292,24 @@ def main():
                 orig_summary = found
             finally:
                 subprocess.run(["rm", "-rf", root])
-    summary = {"variants": len(vs), "per_property": per_prop, "failures": bad, "orig_defects_reproduced": orig_summary}
+    neutral_summary = None
+    if a.neutral:
+        from selftest import neutral_sweep
+        kinds = ["unparse", "flip", "mirror", "augexp", "pad", "rename"]
+        props = [a.prop] if a.prop else neutral_sweep.PROPS
+        jobs = [(k, p) for k in kinds for p in props]
+        silent = 0
+        with ProcessPoolExecutor(max_workers=a.jobs) as ex:
+            for kind, prop, st, info in ex.map(neutral_sweep._one, jobs):
+                if st == "ok":
+                    silent += 1
+                else:
+                    bad += 1
+                    print(f"  [fail   ] neutral {kind} {prop}: {st} {json.dumps(info)[:300] if not isinstance(info, str) else info[:300]}")
+        print(f"  [{'ok' if silent == len(jobs) else 'fail':7}] neutral rewrites: {silent}/{len(jobs)} silent")
+        neutral_summary = {"runs": len(jobs), "silent": silent}
+    summary = {"variants": len(vs), "per_property": per_prop, "failures": bad, "orig_defects_reproduced": orig_summary,
+               "neutral_rewrites": neutral_summary}
     print("SELFTEST", json.dumps(summary))
     if a.json:
         with open(a.json, "w") as f:
